@@ -1053,6 +1053,15 @@ class Channel(ClosingContextManager):
             self._log(
                 ERROR, "unknown extended_data type {}; discarding".format(code)
             )
+            # discarded data still counts toward the peer's window, or the
+            # sender's window would shrink for good
+            ack = self._check_add_window(len(s))
+            if ack > 0:
+                m = Message()
+                m.add_byte(cMSG_CHANNEL_WINDOW_ADJUST)
+                m.add_int(self.remote_chanid)
+                m.add_int(ack)
+                self.transport._send_user_message(m)
             return
         self.lock.acquire()
         try:
